@@ -2758,6 +2758,62 @@ def _letfn_to_py_ast(ctx: GeneratorContext, node: LetFn) -> GeneratedPyAST[ast.e
                 )
             )
 
+        if ctx.is_in_loop and binding_names:
+            # In a `loop*` body the same Python variables are assigned again on every
+            # iteration, and the functions refer to each other by variable. They are
+            # therefore defined inside a factory function whose own variables they
+            # close over, so the functions of one iteration keep calling each other
+            # rather than the functions of the last iteration.
+            factory_name = genname("letfn")
+            letfn_body_ast = [
+                ast_FunctionDef(
+                    name=factory_name,
+                    args=ast.arguments(
+                        posonlyargs=[],
+                        args=[],
+                        kwarg=None,
+                        vararg=None,
+                        kwonlyargs=[],
+                        defaults=[],
+                        kw_defaults=[],
+                    ),
+                    body=list(
+                        chain(
+                            map(statementize, letfn_body_ast),
+                            [
+                                ast.Return(
+                                    value=ast.Tuple(
+                                        elts=[
+                                            ast.Name(id=name, ctx=ast.Load())
+                                            for name, _ in binding_names
+                                        ],
+                                        ctx=ast.Load(),
+                                    )
+                                )
+                            ],
+                        )
+                    ),
+                    decorator_list=[],
+                    returns=None,
+                ),
+                ast.Assign(
+                    targets=[
+                        ast.Tuple(
+                            elts=[
+                                ast.Name(id=name, ctx=ast.Store())
+                                for name, _ in binding_names
+                            ],
+                            ctx=ast.Store(),
+                        )
+                    ],
+                    value=ast.Call(
+                        func=ast.Name(id=factory_name, ctx=ast.Load()),
+                        args=[],
+                        keywords=[],
+                    ),
+                ),
+            ]
+
         body_ast = _synthetic_do_to_py_ast(ctx, node.body)
         letfn_body_ast.extend(map(statementize, body_ast.dependencies))
 
